@@ -9,8 +9,9 @@ ROOT = os.path.dirname(os.path.dirname(os.path.abspath(__file__)))
 # id -> (technique, level text, level note, design ref)
 CHECKS = {
     "C09": (
-        "bounded-exhaustive + Hypothesis-generated opcode programs, lock-step differential vs "
-        "instrumented CPython unpickler",
+        "bounded-exhaustive (three alphabets) + Hypothesis-generated opcode programs + atheris "
+        "byte fuzzing inside the typed domain; lock-step differential vs instrumented CPython "
+        "unpickler",
         "Generated-input search: every typed program over a 27-opcode focus alphabet up to a "
         "length bound, plus random long programs over the full alphabet/encodings and natural "
         "pickles at protocols 0-5, stepped in lock-step against CPython's own pure-Python "
@@ -21,8 +22,9 @@ CHECKS = {
         "DESIGN.md 3/C09",
     ),
     "C03": (
-        "bounded-exhaustive + Hypothesis-generated opcode programs; event-log inclusion "
-        "differential (reference VM over stubs vs executed decompile)",
+        "bounded-exhaustive + Hypothesis-generated opcode programs + atheris byte fuzzing inside "
+        "the typed domain; event-log inclusion differential (reference VM over stubs vs executed "
+        "decompile)",
         "Generated-input search over VM-accepted opcode programs (exhaustive inside a length "
         "bound over the call-making/disposal focus alphabet, random beyond, natural pickles of "
         "instances): every import and call the CPython unpickler performs on inert stubs must "
@@ -34,7 +36,8 @@ CHECKS = {
     ),
     "C05": (
         "Hypothesis recursive values x protocols 0-5 round-trip through exec(decompile); typed "
-        "program differential on canonical value + call multiset vs reference VM",
+        "program differential (three exhaustive alphabets, random, atheris bytes) on canonical "
+        "value + call multiset vs reference VM",
         "Generated-input search: plain data must decompile and re-execute to a type-exact equal "
         "value at every protocol whose encoding uses implemented opcodes; programs and instance "
         "pickles must rebuild the same canonical value (identity-aware for call results) with the "
@@ -88,9 +91,9 @@ CHECKS = {
         "DESIGN.md 3/C14",
     ),
     "C06": (
-        "Hypothesis-generated (first pickle, trailing bytes, delivery) triples and stacks; "
-        "byte-exact round-trip / stream-position / partition oracle vs pickletools + stock "
-        "unpickler",
+        "Hypothesis-generated (first pickle, trailing bytes, delivery) triples and stacks + "
+        "atheris raw bytes; byte-exact round-trip / stream-position / partition oracle vs "
+        "pickletools + stock unpickler",
         "Generated-input search: natural pickles at all protocols, assembler programs and "
         "boundary-length constants followed by arbitrary trailing bytes, delivered nine ways; "
         "dumps() must equal the prefix delimited independently by pickletools.genops (cross-checked "
